@@ -10,7 +10,7 @@ CfgSeq(c) == LET q == SortedSeq(DOMAIN c) IN [k \in 1..Len(q) |-> [i |-> q[k], v
 CfgTab == LET q == SetToSeq(Picks) IN
           [k \in 1..Len(q) |-> LET c == CfgOf(q[k]) IN
              [cfg |-> CfgSeq(c), kill |-> DateText(RefKill(c)), proto |-> RefProto(c), port |-> RefPort(c), trial |-> RefTrial(c)]]
-Alphabet == {97, 98, 44, 47, 0}
+Alphabet == {97, 65, 44, 47, 0}      \* 'a', 'A' (case is kept), ',', '/', NUL
 Texts == UNION { [1..n -> Alphabet] : n \in 0..(IF Quick THEN 4 ELSE 6) }
 PairTab == LET q == SetToSeq(Texts) IN [k \in 1..Len(q) |-> [text |-> q[k], pairs |-> Pairs(q[k]), domains |-> Domains(q[k]), uris |-> Uris(q[k])]]
 ASSUME Mode = "table" => JsonSerialize(IOEnv.OUTF, [cfg |-> CfgTab, pairs |-> PairTab])
